@@ -87,7 +87,39 @@ def check_value(x, *, expect_reject: bool) -> list[dict]:
                 {"kind": kind, "site": _diff_site(x, y),
                  "detail": f"[{name}] in={x!r} out={y!r} text={text[:200]!r}"}
             )
+            continue
+        # a decoded value belongs to its caller: editing it in place must not change what the same text decodes to next
+        if _edit_in_place(y):
+            try:
+                z = de(text)
+            except Exception as e:  # noqa: BLE001
+                out.append({"kind": "second_decode_raised", "site": _root_cause(e), "detail": f"[{name}] text={text[:200]!r}: {e!r}"})
+                continue
+            if not teq(x, z):
+                out.append({"kind": "decoded_values_share_state", "site": type(x).__name__,
+                            "detail": f"[{name}] the first decoded value was edited in place; decoding the same text again gave {z!r} instead of {x!r}"})
     return out
+
+
+def _edit_in_place(v, depth=0) -> bool:
+    """Edit the first mutable container found in v (depth-first). Returns whether something was edited."""
+    if depth > 6:
+        return False
+    if isinstance(v, list):
+        v.append("edited-by-caller")
+        return True
+    if isinstance(v, dict):
+        v["edited-by-caller"] = True
+        return True
+    if isinstance(v, (set, bytearray)):
+        v.clear() if v else (v.add(1) if isinstance(v, set) else v.extend(b"x"))
+        return True
+    if hasattr(v, "all") and isinstance(getattr(v, "all"), list):
+        v.all.append(None)
+        return True
+    if isinstance(v, tuple):
+        return any(_edit_in_place(e, depth + 1) for e in v)
+    return False
 
 
 def _platform_cannot_represent(v) -> bool:
